@@ -231,6 +231,25 @@ func main() {
 		expectFail("gen-test-params garbage mode", run(nil, "gen-test-params", "--mode", "x", "--tree-depth", "2", "--batch-size", "1"))
 		expectFail("setup garbage mode", run(nil, "setup", "--mode", "x", "--output", filepath.Join(*dir, "none"), "--tree-depth", "2", "--batch-size", "1"))
 		expectFail("r1cs absent mode", runNoEnv(nil, "r1cs", "--output", filepath.Join(*dir, "none"), "--tree-depth", "2", "--batch-size", "1"))
+		expectFail("gen-test-params absent mode", runNoEnv(nil, "gen-test-params", "--tree-depth", "2", "--batch-size", "1"))
+		expectFail("setup absent mode", runNoEnv(nil, "setup", "--output", filepath.Join(*dir, "none"), "--tree-depth", "2", "--batch-size", "1"))
+		if _, err := os.Stat("/dev/full"); err == nil {
+			// an output that cannot be written (a full volume): the command must say so
+			expectFail("r1cs onto a full device "+mode, run(nil, "r1cs", "--mode", mode, "--output", "/dev/full", "--tree-depth", "2", "--batch-size", "1"))
+			expectFail("export-vk onto a full device "+mode, run(nil, "export-vk", "--keys-file", keys[mode], "--output", "/dev/full"))
+			expectFail("export-solidity onto a full device "+mode, run(nil, "export-solidity", "--keys-file", keys[mode], "--output", "/dev/full"))
+			expectFail("convert-to-raw onto a full device "+mode, run(nil, "convert-to-raw", "--input", keys[mode], "--output", "/dev/full"))
+			expectFail("setup onto a full device "+mode, run(nil, "setup", "--mode", mode, "--output", "/dev/full", "--tree-depth", "1", "--batch-size", "1"))
+		}
+		// the keys file written by setup belongs to the user who wrote it: readable and writable by
+		// the owner whatever the umask-independent mode bits say
+		if st, err := os.Stat(keys[mode]); err == nil {
+			if st.Mode().Perm()&0o600 == 0o600 {
+				emit("cli\tkeys file mode "+mode, "ok")
+			} else {
+				emit("cli\tkeys file mode "+mode, fmt.Sprintf("mode %v: the owner cannot read or write the file setup has just written", st.Mode().Perm()))
+			}
+		}
 		expectFail("prove missing keys file "+mode, run([]byte("{}"), "prove", "--mode", mode, "--keys-file", filepath.Join(*dir, "absent")))
 		// truncated keys
 		full, _ := os.ReadFile(keys[mode])
